@@ -139,8 +139,16 @@ func isPtr(t reflect.Type) bool {
 func derefPtr(t reflect.Type, v reflect.Value) (reflect.Type, reflect.Value, reflect.Kind) {
 	// loop to handle **type instances
 	var k reflect.Kind
+	var seen []reflect.Type
 	for {
 		if isPtr(t) {
+			// a pointer type defined in terms of itself
+			// (type P *P) has no bottom: stop at the first
+			// type met for the second time.
+			if strInSliceType(seen, t) {
+				break
+			}
+			seen = append(seen, t)
 			t = t.Elem()
 			if v.IsValid() {
 				// Elem of a nil pointer is the zero
@@ -155,6 +163,19 @@ func derefPtr(t reflect.Type, v reflect.Value) (reflect.Type, reflect.Value, ref
 	k = v.Kind()
 
 	return t, v, k
+}
+
+/*
+strInSliceType returns a Boolean value indicative of
+whether t is among the types already recorded in seen.
+*/
+func strInSliceType(seen []reflect.Type, t reflect.Type) bool {
+	for i := 0; i < len(seen); i++ {
+		if seen[i] == t {
+			return true
+		}
+	}
+	return false
 }
 
 /*
